@@ -48,6 +48,14 @@ CHECKS = {
         note="Trusted: receiver typing and call resolution of sa/resolve.py + sa/callgraph.py (name-based fallback for unknown receivers); the ZONE_CUT list and tables/R09.1.json (each entry one construct with a reason). Assumes C02's gates reject on snapshot mismatch (checked by R02.1).",
         design="DESIGN.md §4 C09",
     ),
+    "C10": dict(
+        rules="R10.1-R10.3",
+        what="every iteration over a set in mypy/ is consumed order-insensitively (recognised structurally) or individually tabled; every hash()/id()/urandom/time call site classified; every process-global mutable binding reset on the build entry path or tabled",
+        quant="hash seeds, file orders and preceding builds",
+        technique="type-directed lint over the resolved program (set-typed iterables by annotation-driven typing), effect classification of loop bodies, reaching reset analysis from build.build",
+        note="Independence of the diagnostics from file argument order is not decided. tables/R10.1.json marks sites whose order-insensitivity could not be established by reading as (unproven); they are informational.",
+        design="DESIGN.md §4 C10",
+    ),
     "C11": dict(
         rules="R11.1-R11.5, R11.7-R11.10",
         what="wire grammar of write equals wire grammar of read for 46 serializer classes and the helper pairs, down to librt primitives; field and flag label alignment; tag table integrity and dispatcher exhaustiveness; JSON key/attribute agreement and JSON==binary attribute sets; count/emit filter agreement; sorted iteration in interface serializers; order discipline (only sets may be written sorted); __eq__ fields and declared attributes covered by serialization",
